@@ -6,7 +6,7 @@
     bookkeeping or the existence of a result. *)
 From PegV Require Import Base.Tac Spec.Syntax Spec.Peg Spec.WF Model.Machine Model.SkipCheck Model.Analyses Model.Optimize Model.Gen
   Model.Emit Model.SEmit Model.Exec Proofs.PegFacts Proofs.OptSound Proofs.OptSwok Proofs.Top Proofs.OptTop Proofs.SEmitFile Proofs.SEmitOpt
-  Proofs.EmitUse Proofs.CountReach Proofs.DeepDefault Proofs.CountInline Proofs.ExecDet Proofs.OptClosed.
+  Proofs.EmitUse Proofs.CountReach Proofs.DeepDefault Proofs.CountInline Proofs.ExecDet Proofs.OptClosed Proofs.Forest.
 Local Open Scope nat_scope.
 
 Lemma optimize_length g : length (optimize g) = length g.
@@ -143,3 +143,30 @@ Proof.
   intros out Hx'. exact (xcall_det _ _ _ _ _ _ _ _ Hx' Hx).
 Qed.
 Print Assumptions generated_noast_parser_correct.
+
+(** * The error token
+
+    When the grammar as written rejects the input, the parser generated without -switch (memo table on or off, -inline
+    on or off) leaves in [maxToken] the first non-empty token that reached the furthest offset of the attempt, and that
+    token lies within the input - with no hypothesis that the semantics has a result. *)
+Theorem generated_parser_error_token g tab rank :
+  wf_b g tab rank = true -> good_grammar g ->
+  (forall r b, nth_error g r = Some (RBody b) -> ranges_ok b = true) ->
+  grammar_alt2 g -> closed_names g ->
+  forall ptx buf penv, good_buf buf ->
+  forall memo inline rb st0,
+    nth_error g 0 = Some rb -> rb <> RNil ->
+    exists n res evs, peg_parse g ptx buf penv n 0 = Some (res, evs) /\
+      (res = Fail ->
+       forall out, xcall buf penv (mk_opts true memo inline g) (gen_fn g ptx inline) 0 (reset st0) out ->
+         exists st', out = Ret false st' /\ maxtok st' = first_furthest evs /\ tok_ok (length buf) (maxtok st')).
+Proof.
+  intros Hwf Hg Hro Ha Hc ptx buf penv Hbuf memo inline rb st0 Hr Hn.
+  assert (Hne : g <> []) by (intros E; rewrite E in Hr; discriminate).
+  destruct (c01_total g ptx buf penv tab rank 0 rb Hwf Hr Hn) as (n & [res evs] & H).
+  destruct n as [|n]; [discriminate|].
+  exists (S n), res, evs. split; [exact H|]. intros -> out Hx.
+  exact (generated_code_error_token g ptx buf penv Hg Hbuf (plain_good_switches g Hro) memo inline n 0 st0 evs
+           (deep_table_all g inline Ha Hc) (slot_ok_start g inline) (reached_start g Hne) H out Hx).
+Qed.
+Print Assumptions generated_parser_error_token.
